@@ -74,6 +74,49 @@ def generate():
         out.append("        let _ = (cmd_string, start);\n        Ok(())\n    }")
     out.append("}")
     write_if_changed(f"{DST}/cmd_arms.rs", "\n".join(out) + "\n")
+    # driver functions (C09 a/b, C11 closeness decisions)
+    out = ["// GENERATED from ant-networking/src/{cmd,driver,event/request_response}.rs items -- do not edit",
+           "use crate::driver_model::SwarmDriver;",
+           "use crate::error::NetworkError;",
+           "use crate::event::NetworkEvent;",
+           "use crate::cmd::NetworkSwarmCmd;",
+           "use crate::shim::libp2p::{kad::K_VALUE, PeerId};",
+           "use crate::shim::ant_protocol::{convert_distance_to_u256, messages::{Cmd, Request}, storage::RecordType, NetworkAddress, CLOSE_GROUP_SIZE};",
+           "use crate::shim::ant_evm::U256;",
+           "use crate::target_arch::{spawn, Instant};",
+           "use crate::shim::tokio::time::Duration;",
+           "type Result<T, E = NetworkError> = std::result::Result<T, E>;",
+           ""]
+    c, m = extract_items("ant-networking/src/cmd.rs", [("const", "REPLICATION_TIMEOUT"), ("const", "MIN_REPLICATION_INTERVAL_S"), ("fn", "get_peers_in_range")])
+    out.append(c)
+    meta.append(m)
+    out.append("impl SwarmDriver {")
+    c, m = extract_items("ant-networking/src/cmd.rs", [("fn", "try_interval_replication"), ("fn", "get_replicate_candidates")])
+    out.append(c.replace("fn try_interval_replication", "pub(crate) fn try_interval_replication"))
+    meta.append(m)
+    c, m = extract_items("ant-networking/src/driver.rs", [("fn", "get_closest_k_value_local_peers"), ("fn", "queue_network_swarm_cmd")])
+    out.append(c)
+    meta.append(m)
+    c, m = extract_items("ant-networking/src/event/request_response.rs", [("fn", "add_keys_to_replication_fetcher")])
+    out.append(c.replace("fn add_keys_to_replication_fetcher", "pub(crate) fn add_keys_to_replication_fetcher"))
+    meta.append(m)
+    out.append("}")
+    write_if_changed(f"{DST}/driver_fns.rs", "\n".join(out) + "\n")
+    # closest-peer selection items (C11 iii)
+    out = ["// GENERATED from ant-networking/src/lib.rs and ant-node/src/node.rs items -- do not edit",
+           "use crate::error::NetworkError;",
+           "use crate::shim::libp2p::{kad::{KBucketDistance, KBucketKey}, Multiaddr, PeerId};",
+           "use crate::shim::ant_protocol::{convert_distance_to_u256, NetworkAddress, CLOSE_GROUP_SIZE};",
+           "use crate::shim::ant_evm::U256;",
+           "type Result<T, E = NetworkError> = std::result::Result<T, E>;",
+           ""]
+    c, m = extract_items("ant-networking/src/lib.rs", [("fn", "sort_peers_by_address"), ("fn", "sort_peers_by_key")])
+    out.append(c)
+    meta.append(m)
+    c, m = extract_items("ant-node/src/node.rs", [("fn", "calculate_get_closest_peers")])
+    out.append("pub struct Node;\nimpl Node {\n" + c.replace("fn calculate_get_closest_peers", "pub fn calculate_get_closest_peers") + "\n}")
+    meta.append(m)
+    write_if_changed(f"{DST}/closest_items.rs", "\n".join(out) + "\n")
     # feature flag copied from ant-node's default features
     toml = read_repo("ant-node/Cargo.toml")
     import re
